@@ -47,7 +47,7 @@ TtlLawX(o, s, d) ==
   /\ TtlLaw(o, s, d)
   /\ (o.k # s.k /\ TtlComparable(o, s)) => d = (IF Implied(o) = Implied(s) THEN 0 ELSE PenTtl)   \* documented cross-form pairs
 HdrLaw(o, s, d) == (HInstance(o, s) => d = 0) /\ d \in {REJ, 0, 1, 2, 3}
-SwLaw(o, s, d) == (Contains(o, s) => d = 0) /\ d \in {0, PenSw} /\ (d = 0 => (Contains(o, s) \/ Contains(s, o)))
+SwLaw(o, s, d) == (StrContains(o, s) => d = 0) /\ d \in {0, PenSw} /\ (d = 0 => (StrContains(o, s) \/ StrContains(s, o)))
 
 EntryOk(row, i, d) ==
   CASE row.t = "ttl" -> TtlLawX(row.o, TtlSigAt(row.sk, i), d)
